@@ -149,3 +149,23 @@ Proof.
     unfold vindex; rewrite E; cbn [alpha_beta fst snd]; unfold Zminus; rewrite inject_Z_plus, inject_Z_opp;
     change (inject_Z 1) with 1; lra.
 Qed.
+
+(* ---------- x on y ("normal" mode): order kept, equal values have equal images ---------- *)
+Lemma xony_nth em im x y i : (i < length x)%nat ->
+  nth i (xony_normal em im x y) 0 = qmap em im x y (nth i x 0).
+Proof.
+  intro H. unfold xony_normal. rewrite (nth_indep _ 0 (qmap em im x y 0)) by (rewrite map_length; exact H). apply map_nth.
+Qed.
+
+Lemma xony_order em im x y i j : proved_ecdf em -> proved_iecdf im -> y <> [] -> (i < length x)%nat -> (j < length x)%nat ->
+  nth i x 0 <= nth j x 0 -> nth i (xony_normal em im x y) 0 <= nth j (xony_normal em im x y) 0.
+Proof.
+  intros He Hi Hy Hli Hlj Hle. rewrite !xony_nth by assumption.
+  apply qmap_mono; try assumption. intro E; rewrite E in Hli; cbn in Hli; lia.
+Qed.
+
+Lemma xony_ties em im x y i j : proved_ecdf em -> proved_iecdf im -> y <> [] -> (i < length x)%nat -> (j < length x)%nat ->
+  nth i x 0 == nth j x 0 -> nth i (xony_normal em im x y) 0 == nth j (xony_normal em im x y) 0.
+Proof.
+  intros He Hi Hy Hli Hlj E. apply Qle_antisym; apply xony_order; try assumption; rewrite E; apply Qle_refl.
+Qed.
